@@ -39,7 +39,7 @@ func randCID(r *vh.Rand, n int) protocol.ConnectionID {
 // craftRetry builds a Retry packet for the client. tag: valid (integrity tag computed over the client's
 // current destination connection ID), bad (random tag), flip (valid tag with one bit flipped),
 // odcid (valid tag but for another original destination connection ID).
-func craftRetry(k knowledge, r *vh.Rand, tag, scid, ver string) []byte {
+func craftRetry(k knowledge, r *vh.Rand, tag, scid, ver string, token []byte) []byte {
 	v := k.version
 	if ver == "other" {
 		v = otherVersion(v)
@@ -55,6 +55,9 @@ func craftRetry(k knowledge, r *vh.Rand, tag, scid, ver string) []byte {
 		hdr.SrcConnectionID = randCID(r, 4+r.Intn(12))
 	}
 	hdr.Token = r.Bytes(8 + r.Intn(40))
+	if token != nil {
+		hdr.Token = token // a token stolen from a genuine Retry seen on the wire
+	}
 	buf, err := hdr.Append(nil, v)
 	if err != nil {
 		return nil
